@@ -156,10 +156,13 @@ def step (c impl : String) : String :=
     if kind = "userset" && crM ≠ i.get "cr" then modelDiff s!"CheckReason={crM}" else
     if cxM ≠ i.get "cx" then modelDiff s!"CheckExclusionReason={cxM}" else
     let v1w : CheckV1.World := { cs.world with ctxTuples := sortByObj cs.world.ctxTuples }
+    -- the answers the default engine can give at breadth 1 (the two `exclusion` goroutines race)
+    let v1alts := (CheckV1.checkSet v1w cs.maxDepth).map (fun o => match o with
+      | .ok true _ _ => "T" | .ok false _ _ => "F" | .err .depth => "Edepth" | .err .cond => "Econd" | _ => "Eother")
     if i.get "mg" ≠ "ok" then
       -- the weighted graph cannot be built: the server must serve the request from the default engine
       if !fb then specViol s!"the weighted graph could not be built ({i.get "mg"}) but the server did not fall back to the default engine"
-      else if srv ≠ v1 then specViol s!"fallback after a failed graph build ({i.get "mg"}) answered {srv}, the default engine answers {v1}"
+      else if srv ≠ v1 && !v1alts.contains srv then specViol s!"fallback after a failed graph build ({i.get "mg"}) answered {srv}, the default engine answers {v1}"
       else ok s!"fallback-{i.get "mg"}" false
     else
     match i.graph with
@@ -170,8 +173,9 @@ def step (c impl : String) : String :=
       let d1 := norm (i.get "d1")
       let looks := [2, 1, 3, 0, 64]
       let exact := looks.any (fun l => (modelClasses w l).contains d1)
-      let runs := v2runs i
-      let allV2 := runs.flatMap (·.2)
+      -- without fallback the server's answer is one more run of the weighted-graph engine (own planner, breadth 1)
+      let runs := v2runs i ++ (if fb then [] else [("srv", [srv])])
+      let allV2 := (v2runs i).flatMap (·.2)
       let o := if cs.stratified then oracleClass v1w else "?"
       -- (1) object subjects: every decision equals the reference semantics
       let objViol : Option String :=
@@ -225,13 +229,16 @@ def step (c impl : String) : String :=
       let srvViol : Option String :=
         if fb then
           if !(allV2.any (fun x => !isDec x)) then some s!"server fell back although no weighted-graph run failed ({allV2})"
-          else if srv ≠ v1 && !(isDec srv && !isDec v1) && !(isDec v1 && !isDec srv) then some s!"server fallback answered {srv}, the default engine {v1}"
+          else if srv ≠ v1 && !v1alts.contains srv then some s!"server fallback answered {srv}, the default engine {v1}"
           else
             let need := allV2.filterMap (fun x => if x.startsWith "Eshape" then some (reasonOfShape x) else none)
-            if need.any (fun r => !logs.contains r) && d1.startsWith "Eshape" then some s!"fallback after {d1} without the breaking-change reason in the log ({logs})"
+            -- the reason is logged after the default engine produced an answer (not when it failed as well)
+            if need.any (fun r => !logs.contains r) && d1.startsWith "Eshape" && isDec srv then some s!"fallback after {d1} without the breaking-change reason in the log ({logs})"
             else none
         else
-          if !(allV2.contains srv) && !(srv = "Einvalid" || srv = "Eother") then some s!"server answered {srv} without fallback, the weighted-graph runs answered {allV2}"
+          -- an error may mask or be masked by a decision (races between goroutines); two different decisions may not coexist
+          if isDec srv && allV2.all isDec && !(allV2.contains srv) then some s!"server answered {srv} without fallback, the weighted-graph runs answered {allV2}"
+          else if !isDec srv && allV2.all isDec then some s!"server failed with {srv} without fallback although every weighted-graph run decided ({allV2})"
           else if srv = "F" && kind = "userset" && cr ≠ "-" && !logs.contains cr then some s!"server did not log the breaking-change reason {cr}"
           else none
       match objViol.orElse (fun _ => usViol) |>.orElse (fun _ => shapeViol) |>.orElse (fun _ => valViol) |>.orElse (fun _ => srvViol) with
